@@ -15,6 +15,7 @@ from netqasm.qlink_compat import (Basis, BellState, LinkLayerErr,
                                   LinkLayerOKTypeK, LinkLayerOKTypeM,
                                   LinkLayerOKTypeR, RandomBasis, RequestType,
                                   ReturnType)
+from netqasm.sdk.shared_memory import SharedMemory
 from simulaqron.general.host_config import get_node_id_from_net_config
 from simulaqron.settings import simulaqron_settings
 from simulaqron.virtual_node.virtual import call_method
@@ -277,6 +278,12 @@ class VanillaSimulaQronExecutioner(Executor):
         # If state is |1> do correction
         if correct and outcome:
             yield call_method(virt_qubit, "apply_X")
+
+    def _new_shared_memory(self, app_id):
+        # The host lives in another process and is updated by messages (see _update_shared_memory), so do not
+        # register the memory in netqasm's process-wide SharedMemoryManager: it never forgets an entry and
+        # would refuse the same application ID when a later application uses it again on this node.
+        self._shared_memories[app_id] = SharedMemory()
 
     def _do_wait(self, delay=0.1):
         d = task.deferLater(reactor, delay, lambda: self._logger.debug("Wait finished"))
